@@ -504,6 +504,46 @@ def nonzero_fact(d, cm):
     return False
 
 
+def field_upper_bound(p, x):
+    """least K such that the path establishes `x < K` for the field element x, in any of the spellings
+    `match x.cmp(&K) { Less => .. }`, `x.cmp(&K).is_ge()` / is_lt / is_gt / is_le, `x < K` / `!(x >= K)`"""
+    def const_of(k):
+        if isinstance(k, tuple) and k and k[0] == "call" and k[1].endswith("::from") and k[2]:
+            return cint(k[2][0])
+        return const_int(k) if isinstance(k, tuple) else None
+
+    def cmp_args(t):
+        if isinstance(t, tuple) and t and t[0] == "call" and t[1].endswith("Ord>::cmp") and len(t[2]) == 2 and t[2][0] == x:
+            return const_of(t[2][1])
+        return None
+    best = None
+    for a, v in p.conds():
+        k = None
+        if a[0] == "d":
+            kk = cmp_args(a[1])
+            if kk is not None and (v == ("notin", (0, 1)) or v in (("eq", -1), ("eq", 255))):
+                k = kk
+        elif a[0] == "b" and isinstance(a[1], tuple) and a[1]:
+            t = a[1]
+            if t[0] == "call" and re.search(r"Ordering::is_(ge|lt|gt|le)$", t[1]) and t[2]:
+                kk = cmp_args(t[2][0])
+                m = re.search(r"is_(ge|lt|gt|le)$", t[1]).group(1)
+                if kk is not None:
+                    if (m == "ge" and v is False) or (m == "lt" and v is True):
+                        k = kk
+                    elif (m == "gt" and v is False) or (m == "le" and v is True):
+                        k = kk + 1
+            elif t[0] == "cmp" and t[2] == x and const_of(t[3]) is not None:
+                kk = const_of(t[3])
+                if (t[1] == "lt" and v is True) or (t[1] == "ge" and v is False):
+                    k = kk
+                elif (t[1] == "le" and v is True) or (t[1] == "gt" and v is False):
+                    k = kk + 1
+        if k is not None:
+            best = k if best is None else min(best, k)
+    return best
+
+
 def check_guards(ctx, fb):
     n = 0
     for cls, names in (("Operation", OPS),):
@@ -574,13 +614,7 @@ def check_guards(ctx, fb):
         if not tr:
             continue
         n += 1
-        bound = None
-        for a, v in p.conds():
-            if a[0] == "d" and a[1][0] == "call" and a[1][1].endswith("Ord>::cmp") and a[1][2][0] == P(2):
-                k = a[1][2][1]
-                kk = cint(k[2][0]) if k[0] == "call" and k[1].endswith("::from") else None
-                if kk is not None and (v == ("notin", (0, 1)) or v in (("eq", -1), ("eq", 255))):
-                    bound = kk
+        bound = field_upper_bound(p, P(2))
         if bound is None or bound > 256:
             ok, why = False, "the shift amount is truncated to its low byte on a path where it is only known to be below %s (must be <= 256)" % bound
     ctx.check(ok and n > 0, "R19-4", "shr guard", "low-byte read of the shift amount dominated by b < 254 on %d path(s)" % n, why or "anchor: truncating read not found", loc(it))
